@@ -7,7 +7,8 @@
 (*   mode sim : random long histories (-simulate), op kind chosen first so that kinds are balanced *)
 (* Each case carries what the model of the code predicts: `devs` = the named deviations that alter *)
 (* the outcome of this history (empty: the real code is expected to behave like the design), and   *)
-(* `pred` = the map a fresh open should read at the end ("hang" / "unopenable" otherwise).         *)
+(* `preds` = for every close of the history (each reopen and the final one) the map a fresh open  *)
+(* of the file should read according to the model of the code ("unopenable" / "hang" otherwise).   *)
 (* Class parameters (version, listfile, attributes, slack, universe) come from the environment so  *)
 (* that checks/c06.py can sweep starting-archive classes with one module.                          *)
 (***************************************************************************************************)
@@ -24,6 +25,7 @@ GMaxLen == atoi(Env("C06_MAXLEN", "3"))
 GNames  == atoi(Env("C06_NAMES", "3"))          \* number of op names
 GInit   == atoi(Env("C06_INIT", "1"))           \* how many of them are in the starting archive
 GEnc    == Env("C06_ENC", "0") = "1"            \* use encryption options
+GFill   == Env("C06_FILL", "0") = "1"           \* sim: addition-heavy histories (more additions than free slots)
 GCls    == Env("C06_CLASS", "c")
 
 GH == 16
@@ -40,12 +42,13 @@ GHome    == [x \in GUNames \cup {LF, AT} |->
                ELSE IF x = "pad" THEN PadHome
                ELSE HomeSeq[CHOOSE j \in 1..GNames : AllNames[j] = x]]
 GInitSeq == [j \in 1..GInit |-> AllNames[j]] \o <<"pad">>
-GInitTok == [x \in {GInitSeq[j] : j \in 1..Len(GInitSeq)} |-> "i"]
+GInitTok == [x \in {GInitSeq[j] : j \in 1..Len(GInitSeq)} |-> "i:" \o x]
 
 VARIABLES hist,      \* the calls so far: [op, n, m, rep, comp, enc]
           gkind,     \* sim mode: the kind chosen for the next call ("" = none yet)
+          gpreds,    \* what the model of the code predicts a fresh open reads after each close so far
           gdone
-gvars == <<hslots, hblocks, hcursor, ddisk, wopen, wdirty, vlf, stale, pc, opr, pidx, pcnt, hsnap, lastres, devs, vcalls, hist, gkind, gdone>>
+gvars == <<hslots, hblocks, hcursor, ddisk, wopen, wdirty, vlf, stale, pc, opr, pidx, pcnt, hsnap, lastres, devs, vcalls, hist, gkind, gpreds, gdone>>
 
 OpRec(o, n, m, rep, comp, enc) == [op |-> o, n |-> n, m |-> m, rep |-> rep, comp |-> comp, enc |-> enc]
 Tok(k) == "o" \o ToString(k)
@@ -61,36 +64,38 @@ GRename == \E a \in OpNames, b \in OpNames : BeginRename(a, b) /\ hist' = Append
 GFlush  == (FlushClean \/ FlushInPlace \/ FlushV3Broken) /\ hist' = Append(hist, OpRec("flush", "", "", TRUE, "none", "none"))
 GCompact == CompactStale /\ hist' = Append(hist, OpRec("compact", "", "", TRUE, "none", "none"))
 \* reopen = drop the MutableArchive (flush on drop) and open the file again
-GClose  == (CloseClean \/ CloseInPlace \/ CloseV3Broken) /\ UNCHANGED hist
+PredOf(img) == IF ~img.ok THEN [kind |-> "unopenable"]
+               ELSE [kind |-> "map", map |-> View(img.slots, img.blocks, img.dmg)]
+GClose  == (CloseClean \/ CloseInPlace \/ CloseV3Broken) /\ UNCHANGED hist /\ gpreds' = Append(gpreds, PredOf(ddisk'))
 GReopen == ~wopen /\ Open /\ hist' = (IF vcalls = 0 THEN hist ELSE Append(hist, OpRec("reopen", "", "", TRUE, "none", "none")))
 
 More == Len(hist) < GMaxLen /\ ~gdone /\ pc = "idle"
 \* bfs: any call; sim: first a kind (adds weighted), then its parameters
-Kinds == {"add1", "add2", "add3", "add4", "remove", "rename", "compact", "flush", "reopen", "reopen2"}
+Kinds == IF GFill THEN {"add1", "add2", "add3", "add4", "add5", "add6", "add7", "remove", "flush", "reopen"}
+         ELSE {"add1", "add2", "add3", "add4", "remove", "rename", "compact", "flush", "reopen", "reopen2"}
 PickKind == /\ GMode = "sim" /\ More /\ wopen /\ gkind = ""
-            /\ gkind' \in Kinds /\ UNCHANGED <<hslots, hblocks, hcursor, ddisk, wopen, wdirty, vlf, stale, pc, opr, pidx, pcnt, hsnap, lastres, devs, vcalls, hist, gdone>>
+            /\ gkind' \in Kinds /\ UNCHANGED <<hslots, hblocks, hcursor, ddisk, wopen, wdirty, vlf, stale, pc, opr, pidx, pcnt, hsnap, lastres, devs, vcalls, hist, gpreds, gdone>>
 Allowed(kd) == GMode = "bfs" \/ gkind \in kd
 Call == /\ More /\ (GMode = "bfs" \/ gkind # "") /\ gkind' = "" /\ UNCHANGED gdone
-        /\ \/ Allowed({"add1", "add2", "add3", "add4"}) /\ GAdd
-           \/ Allowed({"remove"}) /\ GRemove
-           \/ Allowed({"rename"}) /\ GRename
-           \/ Allowed({"flush"}) /\ GFlush
-           \/ Allowed({"compact"}) /\ GCompact
+        /\ \/ Allowed({"add1", "add2", "add3", "add4", "add5", "add6", "add7"}) /\ GAdd /\ UNCHANGED gpreds
+           \/ Allowed({"remove"}) /\ GRemove /\ UNCHANGED gpreds
+           \/ Allowed({"rename"}) /\ GRename /\ UNCHANGED gpreds
+           \/ Allowed({"flush"}) /\ GFlush /\ UNCHANGED gpreds
+           \/ Allowed({"compact"}) /\ GCompact /\ UNCHANGED gpreds
            \/ Allowed({"reopen", "reopen2"}) /\ wopen /\ GClose
 \* after a close the only thing to do is to open again (or to stop); the first open is implicit
 Reopen == /\ ~gdone /\ pc = "idle" /\ ~wopen /\ ddisk.ok /\ gkind # "final" /\ (vcalls = 0 \/ Len(hist) < GMaxLen)
-          /\ GReopen /\ UNCHANGED <<gkind, gdone>>
-Step == ~gdone /\ ~Hung /\ CodeSteps /\ UNCHANGED <<hist, gkind, gdone>>
+          /\ GReopen /\ UNCHANGED <<gkind, gpreds, gdone>>
+Step == ~gdone /\ ~Hung /\ CodeSteps /\ UNCHANGED <<hist, gkind, gpreds, gdone>>
 \* the history is complete: the harness drops the archive (flush on drop) ...
 FinalClose == /\ ~gdone /\ pc = "idle" /\ wopen /\ gkind = "" /\ Len(hist) >= GMinLen /\ (GMode = "bfs" \/ Len(hist) >= GMaxLen)
               /\ GClose /\ gkind' = "final" /\ UNCHANGED gdone
 
-PredMap == IF Hung THEN [kind |-> "hang"]
-           ELSE IF ~ddisk.ok THEN [kind |-> "unopenable"]
-           ELSE [kind |-> "map", map |-> DiskView]
+\* one prediction per close (every reopen, then the final one); a spinning call ends the history
+Preds == IF Hung THEN Append(gpreds, [kind |-> "hang"]) ELSE gpreds
 CaseRec == [cls |-> GCls, ver |-> GVer, lf |-> GLF, at |-> GAT, slack |-> IF GVer >= 3 THEN -1 ELSE GSlack,
             names |-> [j \in 1..GNames |-> [n |-> AllNames[j], home |-> HomeSeq[j]]], padhome |-> PadHome,
-            init |-> [j \in 1..GInit |-> AllNames[j]], ops |-> hist, devs |-> devs, pred |-> PredMap]
+            init |-> [j \in 1..GInit |-> AllNames[j]], ops |-> hist, devs |-> devs, preds |-> Preds]
 \* ... and the case is printed
 Emit == /\ ~gdone
         /\ \/ gkind = "final" /\ ~wopen
@@ -98,8 +103,8 @@ Emit == /\ ~gdone
            \/ pc = "idle" /\ ~wopen /\ ~ddisk.ok /\ Len(hist) >= 1
         /\ PrintT("CASE " \o ToJson(CaseRec))
         /\ gdone' = TRUE
-        /\ UNCHANGED <<hslots, hblocks, hcursor, ddisk, wopen, wdirty, vlf, stale, pc, opr, pidx, pcnt, hsnap, lastres, devs, vcalls, hist, gkind>>
+        /\ UNCHANGED <<hslots, hblocks, hcursor, ddisk, wopen, wdirty, vlf, stale, pc, opr, pidx, pcnt, hsnap, lastres, devs, vcalls, hist, gkind, gpreds>>
 
-GInitState == HInit /\ hist = <<>> /\ gkind = "" /\ gdone = FALSE
+GInitState == HInit /\ hist = <<>> /\ gkind = "" /\ gpreds = <<>> /\ gdone = FALSE
 GNext == PickKind \/ Call \/ Reopen \/ Step \/ FinalClose \/ Emit
 =============================================================================
